@@ -225,6 +225,16 @@ class Pool:
         self.CT3 = ComponentTensor(Product(self.vi, self.wj), mi_of((i, j)))   # outer product
         self.vw = Product(self.vi, self.wi)                   # free i (summand of v.w)
         self.viwj = Product(self.vi, self.wj)
+        # operands that DEPEND on an index that a later binder will bind ("diagonal" Indexed nodes: the tensor has
+        # the free index i and is indexed with i again, as index-renaming passes produce them)
+        self.cLT2 = raw_node(Conj, self.LT2)                                  # shape (2,), free i, no indexing hook
+        self.Li = ListTensor(ListTensor(self.vi, self.wi), ListTensor(self.wi, self.vi))   # shape (2,2), free i
+        self.cLi = raw_node(Conj, self.Li)
+        self.dLT2 = raw_node(Indexed, self.LT2, mi_of((i,)))                  # LT2[i], free i
+        self.dcLT2 = raw_node(Indexed, self.cLT2, mi_of((i,)))
+        self.dCT2 = raw_node(Indexed, self.CT2, mi_of((i,)))                  # CT2 has free i
+        self.dLi = raw_node(Indexed, self.Li, mi_of((i, j)))                  # free i, j
+        self.dcLi = raw_node(Indexed, self.cLi, mi_of((i, j)))
         self.dotvw = IndexSum(self.vw, mi_of((i,)))
         self.trM = IndexSum(self.Mii, mi_of((i,)))
 
@@ -363,6 +373,14 @@ def indexed_requests(P, tier):
     CTsel = ComponentTensor(Product(Indexed(P.LT1, mi_of((k,))), P.vj), mi_of((k, j)))
     SUMv = P.v + P.w
     SUMl = P.LT1 + P.v
+    # component tensors whose operand depends on the bound index (built without __new__ so that the operand is
+    # the same on every tree)
+    CTd = raw_node(ComponentTensor, P.dcLT2, mi_of((i,)))
+    CTd2 = raw_node(ComponentTensor, P.dLT2, mi_of((i,)))
+    CTd3 = raw_node(ComponentTensor, P.dcLi, mi_of((i, j)))
+    CTd4 = raw_node(ComponentTensor, P.dcLi, mi_of((j,)))          # binds j only; operand free in i
+    CTd5 = raw_node(ComponentTensor, raw_node(Indexed, P.Li, mi_of((i, j))), mi_of((j, i)))
+    IS3 = IndexSum(ListTensor(Product(P.vi, P.wj), Product(P.wi, P.vj)), mi_of((i,)))     # shape (2,), free j
     cLT2 = raw_node(Conj, P.LT2)                                     # shape (2,), free i, no indexing hook
     CTm = ComponentTensor(Indexed(cLT2, mi_of((j,))), mi_of((i, j)))  # binds an index that is not in kk
     CTm2 = ComponentTensor(Indexed(cLT2, mi_of((j,))), mi_of((j, i)))
@@ -370,6 +388,8 @@ def indexed_requests(P, tier):
             ("LT2", P.LT2), ("LT3", P.LT3), ("LT4", P.LT4), ("LTz", P.LTz), ("CT1", P.CT1),
             ("CT2", P.CT2), ("CT3", P.CT3), ("CTK", CTK), ("CT8", CT8), ("CTL", CTL), ("CTLT", CTLT),
             ("CTfix", CTfix), ("CTlt1", CTlt1), ("CTsel", CTsel), ("CTm", CTm), ("CTm2", CTm2), ("IS1", IS1), ("IS2", IS2),
+            ("CTd", CTd), ("CTd2", CTd2), ("CTd3", CTd3), ("CTd4", CTd4), ("CTd5", CTd5), ("IS3", IS3),
+            ("cLT2", P.cLT2), ("cLi", P.cLi),
             ("SUMv", SUMv), ("SUMl", SUMl), ("N", P.N), ("I2", ufl.Identity(2))]
     if tier == "thorough":
         tens.append(("T3", P.T3))
@@ -408,7 +428,8 @@ def indexsum_requests(P, tier):
                 ("2*vi", Product(as_ufl(2), P.vi)), ("f*Zi?", P.f), ("CT2", P.CT2), ("LT2", P.LT2),
                 ("vi+wi", P.vi + P.wi), ("Mij", P.Mij), ("f*(g*vi)", Product(P.f, Product(P.g, P.vi))),
                 ("(f*vi)*(g*wj)", Product(Product(P.f, P.vi), Product(P.g, P.wj))),
-                ("u3i", P.u3i), ("vw*dot", Product(P.vw, P.dotvw))]
+                ("u3i", P.u3i), ("vw*dot", Product(P.vw, P.dotvw)),
+                ("dLT2", P.dLT2), ("f*dLT2", Product(P.f, P.dLT2)), ("dcLi", P.dcLi), ("vj*dLT2", Product(P.vj, P.dLT2))]
     for (n, s_), x in itertools.product(summands, (i, j, k)):
         fi = fi_of(s_)
         bad = x.count() not in fi
@@ -429,7 +450,9 @@ def ct_requests(P, tier):
             ("T3ijk", Indexed(T3, mi_of((i, j, k)))), ("T30ij", Indexed(T3, mi_of((0, i, j)))),
             ("viwj", P.viwj), ("Mii", P.Mii), ("LT2[j]", Indexed(P.LT2, mi_of((j,)))),
             ("f*Mij", Product(P.f, P.Mij)), ("CT2[j]", raw_node(Indexed, P.CT2, mi_of((j,)))),
-            ("Mij+Mji", P.Mij + P.Mji), ("f", P.f)]
+            ("Mij+Mji", P.Mij + P.Mji), ("f", P.f),
+            ("dLT2", P.dLT2), ("dcLT2", P.dcLT2), ("dCT2", P.dCT2), ("dLi", P.dLi), ("dcLi", P.dcLi),
+            ("f*dLT2", Product(P.f, P.dLT2))]
     tuples = []
     for r in (1, 2, 3):
         tuples += list(itertools.permutations((i, j, k), r))
@@ -477,6 +500,13 @@ def lt_requests(P, tier):
         ("N0:3", [I(P.N, 0, 0), I(P.N, 0, 1), I(P.N, 0, 2)]), ("Ni:3", [I(P.N, i, 0), I(P.N, i, 1), I(P.N, i, 2)]),
         ("T3ij0,T3ij1", [I(T3, i, j, 0), I(T3, i, j, 1)]), ("T3ji0,T3ij1", [I(T3, j, i, 0), I(T3, i, j, 1)]),
         ("T30j0,T30j1", [I(T3, 0, j, 0), I(T3, 0, j, 1)]),
+        # common prefix that repeats an index / uses a free index of the tensor
+        ("T3ii0,T3ii1", [raw_node(Indexed, T3, mi_of((i, i, 0))), raw_node(Indexed, T3, mi_of((i, i, 1)))]),
+        ("cLi[i,0],cLi[i,1]", [raw_node(Indexed, P.cLi, mi_of((i, 0))), raw_node(Indexed, P.cLi, mi_of((i, 1)))]),
+        ("cLi[j,0],cLi[j,1]", [raw_node(Indexed, P.cLi, mi_of((j, 0))), raw_node(Indexed, P.cLi, mi_of((j, 1)))]),
+        ("ct cLi0a,cLi1a", [CT(raw_node(Indexed, P.cLi, mi_of((0, a))), a), CT(raw_node(Indexed, P.cLi, mi_of((1, a))), a)]),
+        ("ct cLi0i,cLi1i", [raw_node(ComponentTensor, raw_node(Indexed, P.cLi, mi_of((0, i))), mi_of((i,))),
+                            raw_node(ComponentTensor, raw_node(Indexed, P.cLi, mi_of((1, i))), mi_of((i,)))]),
         ("LT2[0],LT2[1]", [raw_node(Indexed, P.LT2, mi_of((0,))), raw_node(Indexed, P.LT2, mi_of((1,)))]),
         ("CT1[i,0],CT1[i,1]", [raw_node(Indexed, P.CT1, mi_of((i, 0))), raw_node(Indexed, P.CT1, mi_of((i, 1)))]),
         # [v[0,:], v[1,:]] -> v
@@ -601,7 +631,9 @@ def getitem_requests(P, tier, rng):
     byc = {x.count(): x for x in (i, j, k)}
     tens = [("v", P.v), ("M", P.M), ("Zm", P.Zm), ("Zvi", P.Zvi), ("LT3", P.LT3), ("CT1", P.CT1),
             ("LT2", P.LT2), ("I2", ufl.Identity(2)), ("v+w", P.v + P.w), ("CT3", P.CT3), ("CT2", P.CT2),
-            ("LT1", P.LT1), ("N", P.N), ("T3", P.T3), ("M*w", P.M * P.w)]
+            ("LT1", P.LT1), ("N", P.N), ("T3", P.T3), ("M*w", P.M * P.w),
+            ("CTd", raw_node(ComponentTensor, P.dcLT2, mi_of((i,)))),
+            ("CTd2", raw_node(ComponentTensor, P.dLT2, mi_of((i,)))), ("cLT2", P.cLT2)]
     sl = slice(None)
     alpha = [0, 1, i, j, sl]
     for n, A in tens:
@@ -941,16 +973,31 @@ def mathfold_requests(P, tier):
     return reqs
 
 
+def has_diag(e, depth=4):
+    """e contains an Indexed node whose tensor already has one of the indexing indices as a free index, or
+    that repeats an index (operands that depend on an index a binder may bind)"""
+    if isinstance(e, Indexed):
+        A, mi = e.ufl_operands
+        cs = [x.count() for x in mi if isinstance(x, Index)]
+        if len(set(cs)) != len(cs) or set(cs) & set(A.ufl_free_indices):
+            return True
+    if depth == 0 or e._ufl_is_terminal_:
+        return False
+    return any(has_diag(o, depth - 1) for o in e.ufl_operands if not isinstance(o, MultiIndex))
+
+
 def hot(req):
     """requests that reach a folding branch (zero / literal operands, nested shortcuts): always kept"""
     if req.group == "getitem" and isinstance(req.operands[0], (C.Identity, C.PermutationSymbol)):
+        return True
+    if any(has_diag(o) for o in req.operands):
         return True
     if req.group in ("outer", "inner", "dot", "cross"):
         return False        # large, homogeneous groups: every branch is reached by many requests
     return any(isinstance(o, (Zero, C.ScalarValue)) for o in req.operands) or req.group in (
         "ListTensor", "IndexSum", "Indexed", "conditional", "Abs", "Conj", "Real", "Imag", "as_vector", "as_matrix",
         "div", "neg", "sub", "transpose", "pow", "math", "restricted", "perp", "tr", "det", "inv", "cofac", "dev",
-        "skew", "sym", "diag", "diag_vector", "cross", "mathfold", "elem")
+        "skew", "sym", "diag", "diag_vector", "cross", "mathfold", "elem") or any(has_diag(o) for o in req.operands)
 
 
 def all_requests(tier, rng, groups=None, seed=0):
